@@ -109,7 +109,18 @@ def digest(model, ids: list[str], rel_sample: list[str], anchors: list[str], typ
                 out[("below", a, xt)] = "EXC " + type(ex).__name__
     for xt in types:
         try:
-            out[("search", xt)] = sorted(x.uuid for x in model.search(xt))
+            found = list(model.search(xt))
+            out[("search", xt)] = sorted(x.uuid for x in found)
+            # what a search hands out is the live element: its parent and its children are those of the object looked up by id
+            nav = []
+            for x in sorted(found, key=lambda x: x.uuid)[:40]:
+                par = x._element.getparent()
+                try:
+                    anc = next(iter(loader.iterancestors(x._element)), None)
+                except Exception as ex:  # noqa: BLE001
+                    anc = "EXC " + type(ex).__name__
+                nav.append([x.uuid, anc.get("id") if hasattr(anc, "get") else anc, sum(1 for c in loader.iterchildren_xt(x._element) if c.get("id"))])
+            out[("search-nav", xt)] = nav
         except Exception as ex:  # noqa: BLE001
             out[("search", xt)] = "EXC " + type(ex).__name__
     return out
@@ -146,6 +157,10 @@ def run(chk: lib.Check):
             if e.getparent() is not None and e.get(graph.XSI_TYPE) and len(e) and e.get(graph.XSI_TYPE) not in link_types:
                 by_type[e.get(graph.XSI_TYPE)].append(e)
         kinds = sorted(by_type)
+        layers = [e for e in elems if (e.get(graph.XSI_TYPE) or "").endswith("Architecture") or (e.get(graph.XSI_TYPE) or "").endswith(":SystemEngineering")]
+        layer_children = [c for l_ in layers for c in l_ if isinstance(c.tag, str) and c.get("id") and c.get(graph.XSI_TYPE) and len(c)
+                          and c.get(graph.XSI_TYPE) not in link_types]
+        rng.shuffle(layer_children)
         ids_all = [e.get("id") for e in elems]
         for li in range(n_layouts):
             k = rng.choice([1, 2, 3])
@@ -154,6 +169,10 @@ def run(chk: lib.Check):
             for _ in range(k):
                 t = kinds[(li * 3 + len(picks)) % len(kinds)] if rng.random() < 0.7 else rng.choice(kinds)
                 e = rng.choice(by_type[t])
+                if not chosen and li % 2 == 1 and layer_children:
+                    # the packages directly below an architecture layer: the layer's own relations look INTO them (root_function,
+                    # root_component, all_*, actor_exchanges, ...)
+                    e = layer_children[(li // 2) % len(layer_children)]
                 if any(e is c for c in chosen):
                     continue
                 chosen.append(e)
@@ -162,7 +181,9 @@ def run(chk: lib.Check):
                 inner = [d for d in chosen[0].iterdescendants() if isinstance(d.tag, str) and d.get("id") and d.get(graph.XSI_TYPE) and len(d)
                          and d.get(graph.XSI_TYPE) not in link_types]
                 if inner:
-                    chosen.append(rng.choice(inner))
+                    extra = rng.choice(inner)
+                    if not any(extra is c for c in chosen):
+                        chosen.append(extra)
             chosen.sort(key=lambda e: len(list(e.iterancestors())))
             for i, e in enumerate(chosen):
                 d = rng.choice(FRAG_DIRS)
@@ -187,7 +208,8 @@ def run(chk: lib.Check):
                         focus.add(e.getparent().get("id"))
                     focus.update(c.get("id") for c in list(e.iter())[:15] if isinstance(c.tag, str) and c.get("id"))
                 sample = sorted(focus | set(rng.sample(ids_all, min(60 if quick else 250, len(ids_all)))))
-                rel_sample = sorted(focus)[:25] + rng.sample(ids_all, min(15 if quick else 60, len(ids_all)))
+                rel_sample = sorted(focus)[:25] + rng.sample(ids_all, min(15 if quick else 60, len(ids_all))) + [l_.get("id") for l_ in layers if l_.get("id")]
+                rel_sample = list(dict.fromkeys(rel_sample))
                 anchors = [e.get("id") for e in chosen][:2] + [a.get("id") for a in chosen[0].iterancestors() if a.get("id")][:2]
                 types = sorted({e.get(graph.XSI_TYPE) for e in chosen} | {d.get(graph.XSI_TYPE) for e in chosen for d in e.iterdescendants()
                                                                       if isinstance(d.tag, str) and d.get(graph.XSI_TYPE)})[:6]
@@ -260,6 +282,14 @@ def run(chk: lib.Check):
                     if par is not None:
                         par.description = "edited next to the placeholder"
                     frag.save()
+                    # the session goes on after the save: every observation still answers as before (the edits touched descriptions only)
+                    df2 = digest(frag, sample, rel_sample, anchors, types)
+                    for key in dm:
+                        if df2.get(key) != df.get(key):
+                            what = key[0] if isinstance(key, tuple) else key
+                            chk.violation(f"after-save:{what}", f"{key}: the fragmented model gave {str(df.get(key))[:160]} before save() and gives {str(df2.get(key))[:160]} afterwards",
+                                          {"model": spec0["name"], "picks": picks, "observation": list(key) if isinstance(key, tuple) else key, "before": df.get(key), "after": df2.get(key)})
+                            break
                     import lxml.etree as ET
                     ftxt = (tmp / "m" / dict(picks)[chosen[-1].get("id")]).read_bytes()
                     mtxt = (tmp / "m" / capella).read_bytes()
